@@ -45,6 +45,7 @@ NewEntry(e) == [first |-> e.t, ty |-> e.ty, tok |-> e.tok, h |-> e.h, nr |-> e.n
                 nresp |-> 0,        \* distinct responses sent for it
                 rmid |-> -1, rdig |-> 0,   \* message ID / digest of the (last) response
                 out |-> "",         \* "ret": the handler returned a message; "exc": it raised / returned junk
+                rc |-> 0,           \* code of the message the handler returned (0: not logged / default success code)
                 amb |-> FALSE]      \* a copy arrived exactly at the lifetime boundary: not judged
 
 Suppressed(nr, code) == \* No-Response (RFC 7967): bit (class-1) set
@@ -188,12 +189,13 @@ ObsCall(o, e) ==
        IN FlagIf([o EXCEPT !.seen[key].calls = @ + 1, !.invkey = Put(@, e.inv, key)],
                ~s.amb /\ s.calls >= 1, "C04_AtMostOnce")
 
-RetOutcomes == {"ok", "nocode", "noresponse"}
+RetOutcomes == {"ok", "nocode", "noresponse", "retcode"}   \* "retcode": a message with the code in e.code
 ObsRelease(o, e) ==
   IF ~Has(o.invkey, e.inv) THEN o
   ELSE LET key == o.invkey[e.inv] IN
        [o EXCEPT !.seen[key].out = IF e.x \in RetOutcomes THEN "ret" ELSE "exc",
-                 !.seen[key].nr = IF e.x = "noresponse" THEN 26 ELSE @]
+                 !.seen[key].nr = IF e.x = "noresponse" THEN 26 ELSE @,
+                 !.seen[key].rc = IF e.x = "retcode" THEN e.code ELSE @]
 
 ObsSubmit(o, e) == [o EXCEPT !.pend = @ \cup {e.q}]
 ObsDone(o, e) == [o EXCEPT !.pend = @ \ {e.q}]
@@ -202,7 +204,7 @@ ObsDone(o, e) == [o EXCEPT !.pend = @ \ {e.q}]
 \* No-Response suppresses it or the peer overrode the request by re-using its token.  Judged only when no peer
 \* left a confirmable response unanswered (what is queued behind a given-up exchange is dropped: C14's subject).
 Owed(o, k) == LET s == o.seen[k] IN
-  /\ s.out = "ret" /\ s.nresp = 0 /\ ~s.amb /\ ~Suppressed(s.nr, 69)
+  /\ s.out = "ret" /\ s.nresp = 0 /\ ~s.amb /\ ~Suppressed(s.nr, IF s.rc > 0 THEN s.rc ELSE 69)
   /\ Has(o.bytok, <<k[1], s.tok>>) /\ o.bytok[<<k[1], s.tok>>] = k
 
 EndBad(o) ==
